@@ -39,7 +39,8 @@ SigBad(k) == k \in {"forged", "other"}
 VARIABLES powers,   \* [Val -> 1..MaxPower]
           votes,    \* Seq([v, kind]); v = 0 is a signer that is not a validator
           lc,       \* relation of the previous height's commit to the extended commit:
-                    \* "same" | "round" | "len" | "addr" | "power" | "flag"
+                    \* "same" | "round" | "len" | "addr" | "power" (of the last entry) | "power_first" (of the first entry,
+                    \* the absent one where there is one) | "flag"
           prices    \* Seq(Int): prices reported for one pair (median part)
 vars == <<powers, votes, lc, prices>>
 
@@ -53,9 +54,10 @@ Init ==
               votes = [v \in Val |-> E(v, slots[v])]
                       \o (IF extra = "dup" THEN <<E(1, slots[1])>> ELSE IF extra = "unknown" THEN <<E(0, "ok")>> ELSE <<>>)
     [] Part = "lastcommit" ->
-         /\ powers = [v \in Val |-> 1] /\ prices = <<>>
+         \* the first validator (the absent one in the third vote set) is light enough for the others to reach > 2/3 alone
+         /\ powers = [v \in Val |-> IF v = 1 THEN 1 ELSE 3] /\ prices = <<>>
          /\ votes \in {AllOk, <<>>, [v \in Val |-> E(v, IF v = 1 THEN "absent" ELSE "ok")]}
-         /\ lc \in {"same", "round", "len", "addr", "power", "flag"}
+         /\ lc \in {"same", "round", "len", "addr", "power", "power_first", "flag"}
     [] Part = "median" ->
          /\ powers = [v \in Val |-> 1] /\ votes = AllOk /\ lc = "same"
          /\ \E n \in 1..4 : prices \in [1..n -> -3..3]
@@ -66,7 +68,7 @@ Spec == Init /\ [][Next]_vars
 -----------------------------------------------------------------------------
 \* validate_extended_commit_against_last_commit: entry by entry
 LastCommitOK ==
-  /\ lc # "round" /\ lc # "len" /\ lc # "addr" /\ lc # "power"
+  /\ lc # "round" /\ lc # "len" /\ lc # "addr" /\ lc # "power" /\ lc # "power_first"
   \* a flag mismatch is tolerated only for an entry that is absent + empty + unsigned in the extended commit
   /\ lc = "flag" => \A i \in 1..Len(votes) : votes[i].kind = "absent"
 
